@@ -1,6 +1,6 @@
 use super::get_or_create_resource_node;
 use crate::base::{BaseSlot, EntryContext, StatPrepareSlot};
-use lazy_static::lazy_static;
+use crate::vsync::lazy_static;
 use std::sync::Arc;
 
 const PREPARE_SLOT_ORDER: u32 = 1000;
